@@ -60,7 +60,7 @@ SCALE = 64
 
 
 # ---------------------------------------------------------------- the mutation grammar
-def mutations(nr, nc):
+def mutations(nr, nc, offsets=OFFSETS):
     """single mutations of a JSON document with nr rows and nc columns (JSON-able descriptors)"""
     m = []
     for k in KEYS:
@@ -106,7 +106,7 @@ def mutations(nr, nc):
                 '2020-01-01T25:00', '2020-01-01T10:00:61', '2020-01-01T10:00:00.1234567', '2020-01-01t10:00',
                 '2020-01-01 10:00', ' 2020-01-01', '0000-01-01', '2020-01-02T03:04:05+00:00', '2020-01- 5',
                 '2020-01-01T1:2:3.4', '20200101', '2020-01-01T', '2020-01-01T10', '2020-01-01T10:60', '99999-01-01',
-                ['2020-01-01']) + tuple('2024-02-29T13:14:15' + frac + off for frac in ('', '.25') for off in OFFSETS) + \
+                ['2020-01-01']) + tuple('2024-02-29T13:14:15' + frac + off for frac in ('', '.25') for off in offsets) + \
             ('2024-02-29T13:14+00:00', '2024-02-29+00:00', '2024-02-29T13:14:15.1234567+00:00', '2024-02-29T13:14:1+01:00',
              '2024-02-29T13:14:15.+01:00', '2024-02-30T13:14:15+01:00'):
         m.append(['set', 'date', val])
@@ -1119,7 +1119,7 @@ def gen(rng, tier):
         yield c
     if tier == 'thorough':
         b = BASES[0]
-        ms = mutations(2, 3)
+        ms = mutations(2, 3, offsets=('+05:30', 'Z', '+25:00', '+0'))      # pairs: four of the 39 offset texts
         for i, m1 in enumerate(ms):
             for j, m2 in enumerate(ms):
                 yield {'kind': 'json', 'spec': b, 'muts': [m1, m2]}
